@@ -14,7 +14,7 @@
 
    Wire format (shared with harness/src/suites/c01.rs):
      case   mode rootkind base len [gbase0,size0,gbase1,size1,...] [code,ty,a,b]*
-     obs    [class,off,len,glen,nelem,ridx]*          one per request
+     obs    first_class [class,off,len,glen,nelem,ridx]*   one list per request
    class: 0 accessor, 1 OutOfBounds, 2 Overflow, 3 TooBig, 4 Misaligned, 5 panic,
           6 InvalidGuestAddress, 7 not applicable, 8 None, 9 InvalidBackendAddress, 10 other *)
 From VM Require Import Prelude.MachInt Prelude.Outcome Prelude.Tok.
@@ -193,6 +193,19 @@ Fixpoint chain_ok (c : case01) (g : geom) (ops : list sop) (obs : list sobs) {st
 
 Definition ok_C01 (c : case01) (obs : list sobs) : bool := chain_ok c (root_geom c) (c_ops c) obs.
 
+(* what the checker's verdict says about an observation, as a Prop: every answer that is an
+   accessor comes from an existing method and the bytes it is observed to designate end within
+   the first L bytes of the root *)
+Definition obs_inside_root (L : N) (k : kind) (o : sop) (ob : sobs) : Prop :=
+  o_class ob = 0 ->
+  exists rk, result_kind k (s_rq o) = Some rk /\ o_off ob + obs_reach rk o ob <= L.
+
+Fixpoint all_inside (L : N) (g : geom) (ops : list sop) (obs : list sobs) {struct ops} : Prop :=
+  match ops, obs with
+  | o :: ops', ob :: obs' => obs_inside_root L (g_kind g) o ob /\ all_inside L (step_geom g o ob) ops' obs'
+  | _, _ => True
+  end.
+
 (* ================================================================== Prop reading
    The same notions on the model's accessor records (Impl/Volatile.v supplies only the record
    types here), in unbounded arithmetic; the theorems of Properties/C01.v are stated with
@@ -295,5 +308,6 @@ Definition acc_aligned (a : accessor) : Prop :=
   | ATyped t | AAtomic t => tr_addr t mod tr_align t = 0
   | _ => True
   end.
-(* a valid piece of host memory: an address range below the top of the address space *)
-Definition acc_valid (a : accessor) : Prop := acc_base a + acc_len a < W64.
+(* a valid piece of host memory: an address range below the top of the address space, no
+   longer than isize::MAX (no Rust object is; it is part of the contract of the unsafe constructors) *)
+Definition acc_valid (a : accessor) : Prop := acc_base a + acc_len a < W64 /\ acc_len a <= ISZ_MAX.
